@@ -14,6 +14,7 @@ import json
 import os
 
 import dns.dnssec
+import dns.dnssectypes
 import dns.exception
 import dns.name
 import dns.rdata
@@ -668,6 +669,10 @@ def eval_nsec3(ctx, c, rep):
         s_arg, s_tok = c["stext"], "t:" + _txt(c["stext"])
     a_arg = alg if aform is None else aform
     a_tok = f"i:{alg}" if aform is None else "t:" + _txt(aform)
+    if c.get("enum") and aform is None and alg == 1:
+        a_arg = dns.dnssectypes.NSEC3Hash.SHA1  # enum member instead of the plain integer
+    if c.get("bytearray") and sform == "bytes":
+        s_arg = bytearray(salt)
     r2, v2 = outcome(lambda: with_dnssec_hashlib(_FakeHashlib([], toy=True), lambda: dns.dnssec.nsec3_hash(d_arg, s_arg, it, a_arg)), str)
     ctx.corr(f"c15.nsec3args {d_tok} {s_tok} {it} {a_tok}", r2, c)
     ctx.count(f"nsec3args.{dform}.{sform}.{'int' if aform is None else 'text'}." + sig_family(r2))
@@ -818,6 +823,9 @@ def eval_signzone(ctx, c, rep):
             with z.writer() as txn:
                 dns.dnssec.sign_zone(z, txn=txn, add_dnskey=False, rrset_signer=signer2)
         r, v = outcome(run, lambda _: "")
+    elif route == "defaults":
+        # every optional argument omitted: add_dnskey defaults to True but there are no keys to add
+        r, v = outcome(lambda: dns.dnssec.sign_zone(z, rrset_signer=signer2), lambda _: "")
     elif route == "adddnskey":
         r, v = outcome(lambda: dns.dnssec.sign_zone(z, keys=keys, add_dnskey=True, dnskey_ttl=c.get("dnskey_ttl"), rrset_signer=signer2), lambda _: "")
     else:
@@ -928,8 +936,9 @@ def eval_signzone(ctx, c, rep):
     # Python reference: the expected line is built from the reference only
     stored = {zone_fqdn(z, n): n for n in z.nodes}
     ref_order = sorted(chain, key=lambda n: r_key(list(n)))
-    ctx.corr(f"c15.chainspec {enc_labels(origin.labels)} " + " ".join(order),
-             "ok true true true true " + (";".join(enc_labels(stored[n].labels) for n in ref_order) or "-"), c)
+    if len(order) <= 40:
+        ctx.corr(f"c15.chainspec {enc_labels(origin.labels)} " + " ".join(order),
+                 "ok true true true true " + (";".join(enc_labels(stored[n].labels) for n in ref_order) or "-"), c)
     g = got["recorder"]
     low = lambda n: tuple(r_lower(l) for l in n)
     gk = {low(k): (low(v_[0]), v_[1]) for k, v_ in g.items()}
@@ -952,6 +961,57 @@ def eval_signzone(ctx, c, rep):
             sig = "C15/sign_zone/nsec-bitmap/type-set-differs"
         diff = {".".join(l.decode("latin1") for l in k): (sorted(gk.get(k, ((), set()))[1]), sorted(wk.get(k, ((), set()))[1])) for k in set(gk) | set(wk) if gk.get(k) != wk.get(k)}
         ctx.fail(sig, f"NSEC chain differs from RFC 4035 §2.3 reference at {diff}", rep)
+    def nsec_map(zz):
+        m = {}
+        for name, node in zz.nodes.items():
+            rds = node.get_rdataset(zz.rdclass, NSEC)
+            if rds is not None:
+                m[low(zone_fqdn(zz, name))] = sorted((low(zone_fqdn(zz, rd.next)), tuple(rd.windows)) for rd in rds)
+        return m
+
+    if gk == wk and route != "adddnskey":
+        first = nsec_map(z2)
+        # (a) signing an already signed zone again changes nothing in the chain: still one NSEC per secure name
+        r8, _ = outcome(lambda: dns.dnssec.sign_zone(z2, add_dnskey=False, rrset_signer=lambda t, rr: None), lambda _: "")
+        if not r8.startswith("ok") or nsec_map(z2) != first:
+            ctx.fail("C15/sign_zone/re-sign-not-idempotent", f"second sign_zone on the signed zone: {r8}; chain changed: {nsec_map(z2) != first}", rep)
+            return
+        # (b) a signer that raises (library or foreign exception, even a BaseException) aborts the whole operation:
+        #     the exception reaches the caller, the zone is untouched, and signing afterwards works as on a fresh zone
+        k = c.get("raise_at")
+        if k is not None:
+            class Boom(BaseException):
+                pass
+            exc = {"value": ValueError, "dns": dns.exception.FormError, "base": Boom}[c.get("raise_kind", "value")]
+            z6 = build_zone(c)
+            snap = z6.to_text()
+            calls = [0]
+
+            def bad(txn, rrset):
+                calls[0] += 1
+                if calls[0] > k:
+                    raise exc("signer failed")
+                txn.add(rrset.name, rrset.ttl, dummy_rrsig(rrset, origin))
+            reached = True
+            try:
+                dns.dnssec.sign_zone(z6, add_dnskey=False, rrset_signer=bad)
+                escaped = False
+                reached = calls[0] > k  # fewer signer calls than k: nothing was raised, nothing to check
+            except exc:
+                escaped = True
+            except BaseException as e:  # noqa
+                ctx.fail("C15/sign_zone/signer-exception-replaced", f"signer raised {exc.__name__}, caller saw {type(e).__name__}", rep)
+                return
+            ctx.count("signzone.signer-raises." + (c.get("raise_kind", "value") if reached else "not-reached"))
+            if not reached:
+                pass
+            elif not escaped or z6.to_text() != snap:
+                ctx.fail("C15/sign_zone/state-after-signer-exception", f"signer raised {exc.__name__} at call {k + 1}: propagated={escaped}, zone unchanged={z6.to_text() == snap}", rep)
+                return
+            r9, _ = ("ok", None) if not reached else outcome(lambda: dns.dnssec.sign_zone(z6, add_dnskey=False, rrset_signer=lambda t, rr: None), lambda _: "")
+            if reached and (not r9.startswith("ok") or nsec_map(z6) != first):
+                ctx.fail("C15/sign_zone/state-after-signer-exception", f"signing after the aborted attempt: {r9}; chain equals a fresh signing: {nsec_map(z6) == first}", rep)
+                return
     # what was handed to the signer (RFC 4035 §2.2)
     signed = set()
     for e in events:
@@ -1091,7 +1151,14 @@ def eval_dsargs(ctx, c, rep):
     alg = c["alg"]
     pol = {"default": None, "all": dns.dnssec.allow_all_policy}[c["policy"]]
     val = c["validating"]
-    r, v = outcome(lambda: dns.dnssec.make_ds(n_arg, key, alg, origin, pol, val), lambda ds: hx(ds.to_wire()))
+    alg_arg = alg
+    if c.get("enum") and isinstance(alg, int) and alg in (0, 1, 2, 3, 4):
+        alg_arg = dns.dnssectypes.DSDigest(alg)  # enum member instead of the plain integer
+    if pol is None and not val and c.get("enum"):
+        # defaults omitted altogether
+        r, v = outcome(lambda: dns.dnssec.make_ds(n_arg, key, alg_arg, origin), lambda ds: hx(ds.to_wire()))
+    else:
+        r, v = outcome(lambda: dns.dnssec.make_ds(n_arg, key, alg_arg, origin=origin, policy=pol, validating=val), lambda ds: hx(ds.to_wire()))
     ctx.count(f"dsargs.{c['nform']}.{'str' if isinstance(alg, str) else 'int'}.{'val' if val else 'create'}.{c['policy']}." + sig_family(r))
     if r.startswith("FOREIGN"):
         ctx.fail("C15/make_ds/foreign-exception:" + r.split(" ")[1], f"make_ds({n_arg!r}, kty={kty}, {alg!r}, origin={origin}, validating={val}) -> {r}", rep)
@@ -1160,23 +1227,26 @@ def eval_dsargs(ctx, c, rep):
         rr_in.update_ttl(c["ttl"])
         for x in both:
             rr_in.add(x)
-    algset = {alg}
+    def container(xs):
+        return {"set": set, "list": list, "tuple": tuple, "gen": (lambda v_: (x for x in v_))}[c.get("algs_as", "set")](xs)
+    algset = container([alg_arg])
     r3, v3 = outcome(lambda: dns.dnssec.make_ds_rdataset(rr_in, algset), lambda d: " ".join(sorted(hx(x.to_wire()) for x in d)))
     if v3 is None or sorted(x.to_wire() for x in v3) != wants or int(v3.rdtype) != DS or v3.ttl != c["ttl"]:
         ctx.fail("C15/make_ds_rdataset/from-cds/filter-or-type", f"asked {alg!r} of CDS digests {{{dt},{other}}}: {r3[:200]} type {int(v3.rdtype) if v3 is not None else None}", rep)
         return
-    r4, v4 = outcome(lambda: dns.dnssec.make_ds_rdataset(rr_in, {"SHA1" if isinstance(alg, str) else 1}), lambda d: str(len(d)))
+    algset = container([alg_arg])
+    r4, v4 = outcome(lambda: dns.dnssec.make_ds_rdataset(rr_in, container(["SHA1" if isinstance(alg, str) else 1])), lambda d: str(len(d)))
     if r4 != "err ValueError":
         ctx.fail("C15/make_ds_rdataset/from-cds/no-acceptable-digest-accepted", f"asked SHA1 of CDS digests {{{dt},{other}}} -> {r4}", rep)
         return
-    r5, _ = outcome(lambda: dns.dnssec.make_ds_rdataset((name_obj, dsr), algset), lambda d: str(len(d)))
+    r5, _ = outcome(lambda: dns.dnssec.make_ds_rdataset((name_obj, dsr), container([alg_arg])), lambda d: str(len(d)))
     r6, _ = outcome(lambda: dns.dnssec.dnskey_rdataset_to_cds_rdataset(n_arg, dsr, alg, origin), lambda d: str(len(d)))
     r7, _ = outcome(lambda: dns.dnssec.cds_rdataset_to_ds_rdataset(krds), lambda d: str(len(d)))
     if (r5, r6, r7) != ("err ValueError",) * 3:
         ctx.fail("C15/ds-helpers/wrong-input-type-accepted", f"make_ds_rdataset(DS) {r5}; dnskey_rdataset_to_cds_rdataset(DS) {r6}; cds_rdataset_to_ds_rdataset(DNSKEY) {r7}", rep)
         return
     # make_ds_rdataset from DNSKEY/CDNSKEY: one record per key and digest type, the right octets ...
-    algs2 = {alg, other}
+    algs2 = container([alg_arg, other])
     kin = (n_arg if c["nform"] == "name" else name_obj, krds)
     v8 = dns.dnssec.make_ds_rdataset(kin, algs2)
     wants8 = sorted(wants + [r_ds(fq, w, other), r_ds(fq, w2, other)])
@@ -1385,7 +1455,7 @@ def gen_rrsigdata(rng):
     use_origin = True if (relative or (signer and signer[-1] != b"") or not signer) and rng.chance(9, 10) else rng.chance(1, 3)
     return {"kind": "rrsigdata", "cls": rng.choice([1, 1, 1, 3]), "ty": ty, "ttl": rng.choice([0, 300, 86400]),
             "sig": [ty, rng.choice([5, 8, 13, 15]), labels, rng.choice([0, 1, 300, 3600, 2**31 - 1, 2**32 - 1]),
-                    rng.choice([0, 1893456000, 2**32 - 1]), rng.choice([0, 1577836800, 2**32 - 1]), rng.below(65536)],
+                    rng.choice([0, 1893456000, 2**32 - 1]), rng.choice([0, 1577836800, 2**32 - 1]), rng.choice([0, 1, 255, 256, 32767, 32768, 65535, rng.below(65536)])],
             "signer": hexl(signer), "origin": hexl(origin) if use_origin else None, "rrname": hexl(rr), "rds": rds,
             "rrform": rng.choice(["tuple", "rrset"]), "oform": rng.choice(["name", "name", "text"])}
 
@@ -1400,19 +1470,32 @@ def gen_ds(rng):
 RAW_SALTS = ["-", "a", "abc", "ab ", " ab", "ab cd", "ab  cd", "a bcd", "ab\tcd\n", "zz", "0x", "AbCd", "", "  ", "ab\x0bcd ", "a-"]
 
 
+def gen_maxname(rng):
+    """an absolute name of exactly 255 octets (63+63+63+61 plus the root), mixed case"""
+    return [rng.bytes(63, list(LETTERS)), rng.bytes(63, list(LETTERS)), rng.bytes(63, list(LETTERS)), rng.bytes(61, list(LETTERS)), b""]
+
+
 def gen_nsec3(rng):
     name = gen_name(rng, absolute=rng.chance(9, 10), maxlabels=4, budget=rng.choice([60, 250]))
+    if rng.chance(1, 25):
+        name = gen_maxname(rng)
     sform = rng.choice(["bytes", "bytes", "hex", "HEX", "none", "raw"])
-    salt = rng.bytes(rng.choice([0, 0, 1, 2, 4, 8, 8, 255]))
+    salt = rng.bytes(rng.choice([0, 0, 1, 2, 4, 8, 8, 255, 256]))
     if sform == "none":
         salt = b""
     c = {"kind": "nsec3", "name": hexl(name), "salt": salt.hex(),
-         "iter": rng.choice([0, 0, 1, 1, 2, 3, 5, 10, 12, 50]), "alg": rng.choice([1] * 9 + [0, 2]),
+         "iter": rng.choice([0, 0, 1, 1, 2, 3, 5, 10, 12, 50, 255, 256, 257] + ([65535, 65536] if rng.chance(1, 20) else [1])),
+         "alg": rng.choice([1] * 9 + [0, 2]),
          "dform": rng.choice(["name", "name", "text"]), "sform": sform,
-         "aform": rng.choice([None, None, None, "SHA1", "sha1", "Sha1", "SHA256", "", "1"]),
+         "aform": rng.choice([None, None, None, None, "SHA1", "sha1", "Sha1", "SHA256", "", "1", "SHA1\n", "SHA1 ", " SHA1", "SHA1\x00"]),
+         "enum": rng.chance(1, 3), "bytearray": rng.chance(1, 3),
          "zone": hexl(rng.choice(ORIGINS + [[b"x" * 63, b"y" * 63, b"z" * 63, b"w" * 30, b""]]))}
     if sform == "raw":
         c["stext"] = rng.choice(RAW_SALTS)
+    if c["iter"] > 1000:
+        c["salt"] = c["salt"][:4]  # keep the 16-bit boundary cases cheap
+    elif c["iter"] > 100:
+        c["salt"] = c["salt"][:16]
     return c
 
 
@@ -1509,10 +1592,34 @@ def gen_zone(rng, for_zonemd=False):
             "zclass": rng.choice(["plain", "plain", "versioned"])}
 
 
+def gen_bigzone(rng):
+    """≥ 254 names (B-tree leaf / fan-out sizes of a versioned zone's storage), a few delegations with glue"""
+    origin = [b"Big", b"example", b""]
+    rel = rng.chance(1, 2)
+    a = lambda: {"ty": 1, "ttl": 60, "rd": [{"ty": 1, "text": "192.0.2.1", "names": []}]}
+    ns = lambda: {"ty": 2, "ttl": 60, "rd": [{"ty": 2, "text": "{n}", "names": [hexl([b"ns", b""])]}]}
+    soa = {"ty": 6, "ttl": 60, "rd": [{"ty": 6, "text": SOA_TPL % 5, "names": [hexl([b"ns", b""]), hexl([b"h", b""])]}]}
+    st = lambda p: hexl(p if rel else p + origin)
+    nodes = [{"name": st([]), "rds": [soa, ns()]}]
+    n = rng.choice([253, 254, 255, 260, 300])
+    for i in range(n):
+        lab_ = (b"N%03d" % i) if i % 2 else (b"n%03d" % i)
+        if i % 37 == 5:
+            nodes.append({"name": st([lab_]), "rds": [ns(), a()]})
+            nodes.append({"name": st([b"glue", lab_]), "rds": [a()]})
+        else:
+            nodes.append({"name": st([lab_]), "rds": [a()]})
+    return {"origin": hexl(origin), "rel": rel, "nodes": [nodes[0]] + rng.shuffle(nodes[1:]), "cls": 1,
+            "zclass": rng.choice(["plain", "versioned"])}
+
+
 def gen_signzone(rng):
-    z = gen_zone(rng)
+    z = gen_bigzone(rng) if rng.chance(1, 170) else gen_zone(rng)
     z["kind"] = "signzone"
-    z["route"] = rng.choice(["plain", "plain", "txn", "adddnskey"])
+    z["route"] = rng.choice(["plain", "defaults", "txn", "adddnskey"])
+    if rng.chance(1, 3):
+        z["raise_at"] = rng.choice([0, 0, 1, 2, 5, 9])
+        z["raise_kind"] = rng.choice(["value", "dns", "base"])
     if z["route"] == "adddnskey":
         z["keys"] = [gen_keyid(rng)["rdata"] for _ in range(rng.choice([0, 1, 1, 2]))]
         z["keys"] = [k for k in z["keys"] if len(k) <= 600]
@@ -1557,12 +1664,16 @@ def gen_dsargs(rng):
     key = k["rdata"] if kty != 43 else (b"\x30\x39\x08\x02" + bytes(32)).hex()
     rel = rng.chance(1, 3)
     name = gen_name(rng, absolute=not rel, maxlabels=3, budget=rng.choice([40, 200]))
+    if rng.chance(1, 25):
+        name = gen_maxname(rng)
     origin = rng.choice(ORIGINS + [[b"rel", b"o"]]) if rng.chance(2, 3) else None
-    alg = rng.choice([1, 2, 2, 4, 4, 0, 3, 5, "SHA1", "sha1", "SHA256", "sha256", "Sha384", "SHA384", "GOST", "null", "SHA512", "", "2"])
+    alg = rng.choice([1, 2, 2, 4, 4, 0, 3, 5, 255, 256, "SHA1", "sha1", "SHA256", "sha256", "Sha384", "SHA384", "GOST", "null", "SHA512", "", "2",
+                      "SHA256\n", "SHA256 ", " sha256", "SHA384\x00"])
     return {"kind": "dsargs", "name": hexl(name), "nform": rng.choice(["name", "text", "text"]),
             "origin": None if origin is None else hexl(origin), "key": key, "kty": kty, "alg": alg,
             "validating": rng.chance(1, 3), "policy": rng.choice(["default", "default", "all"]),
-            "ttl": rng.choice([0, 300, 86400]), "rrform": rng.choice(["tuple", "rrset"])}
+            "ttl": rng.choice([0, 300, 86400, 2**31 - 1]), "rrform": rng.choice(["tuple", "rrset"]),
+            "enum": rng.chance(1, 3), "algs_as": rng.choice(["set", "list", "tuple", "gen"])}
 
 
 def gen_namedigest(rng):
